@@ -129,6 +129,9 @@ def d2(chk, prog):
         if out.data.n != len(rows) or "__keep__" in cols:
             tb.cell(False, dict(method=method, problem="row count changed"))
             continue
+        if "cn1" not in cols or "cn2" not in cols:
+            tb.cell(False, dict(method=method, problem="a table carrying a baf column gets no cn1 / cn2 columns", columns=[c for c in cols if not c.startswith("__")]))
+            continue
         for i, (j, b) in enumerate(classes):
             cn, cn1, cn2 = cols["cn"].v[i], cols["cn1"].v[i], cols["cn2"].v[i]
             cn_pos = None
@@ -147,15 +150,6 @@ def d2(chk, prog):
                         dict(method=method, cls=(j, b), bound="0 <= cn1 <= cn not established: cn1 is not clipped into [0, cn] "
                              "(a purity-rescaled BAF can leave [0, 1], giving cn1 > cn and cn2 < 0)", cn1=repr(cn1), cn=repr(cn)))
     tb.done("allelic copy numbers do not partition cn / are not missing exactly where BAF is missing and cn > 0")
-    # the NaN mask on the clonal path: structural -- both stores use one mask, which is baf.isnull() & (cn > 0)
-    stores = [n for n in own_nodes(fi.node) if isinstance(n, ast.Assign) and isinstance(n.targets[0], ast.Subscript)
-              and isinstance(n.targets[0].slice, ast.Tuple) and len(n.targets[0].slice.elts) == 2
-              and isinstance(n.targets[0].slice.elts[1], ast.Constant) and n.targets[0].slice.elts[1].value in ("cn1", "cn2")]
-    masks = {norm(s.targets[0].slice.elts[0]) for s in stores}
-    cols_ = sorted(s.targets[0].slice.elts[1].value for s in stores)
-    ok = len(stores) == 2 and len(masks) == 1 and cols_ == ["cn1", "cn2"]
-    chk.decide(ok, "allelic-split", "cn1 and cn2 are blanked through one and the same mask", fi.qn + "::nan-mask", fi.loc(),
-               f"masked stores: columns {cols_}, masks {sorted(masks)}")
 
 
 def d3(chk, prog):
@@ -189,6 +183,9 @@ def run(chk):
 
 _C = "cnvlib/call.py"
 MUTANTS = [
+    dict(name="seeded C02e: threshold rank by bisect_right", edits=[(_C, '        cnum = 0\n        for cnum, thresh in enumerate(thresholds):\n            if row.log2 <= thresh:\n                if ref_copies != ploidy:\n                    cnum = int(cnum * ref_copies / ploidy)\n                break\n', '        cnum = bisect.bisect(thresholds, row.log2)\n        if cnum < len(thresholds):\n            if ref_copies != ploidy:\n                cnum = int(cnum * ref_copies / ploidy)\n'), (_C, 'import logging\n', 'import bisect\nimport logging\n')]),
+    dict(name="twin: threshold rank by bisect_left", expect="silent", edits=[(_C, '        cnum = 0\n        for cnum, thresh in enumerate(thresholds):\n            if row.log2 <= thresh:\n                if ref_copies != ploidy:\n                    cnum = int(cnum * ref_copies / ploidy)\n                break\n', '        cnum = bisect.bisect_left(thresholds, row.log2)\n        if cnum < len(thresholds):\n            if ref_copies != ploidy:\n                cnum = int(cnum * ref_copies / ploidy)\n'), (_C, 'import logging\n', 'import bisect\nimport logging\n')]),
+    dict(name="seeded C02f: allelic split gated on the variants argument", file=_C, old='        if "baf" in outarr:\n            # Calculate major', new='        if variants:\n            # Calculate major'),
     dict(name="<= -> < in threshold scan", file=_C, old="            if row.log2 <= thresh:", new="            if row.log2 < thresh:"),
     dict(name="drop haploid rescale", file=_C, old="                    cnum = int(cnum * ref_copies / ploidy)\n", new="                    pass\n"),
     dict(name="ceil -> round above last threshold", file=_C, old="cnum = int(np.ceil(_log2_ratio_to_absolute_pure(row.log2, ref_copies)))", new="cnum = int(np.round(_log2_ratio_to_absolute_pure(row.log2, ref_copies)))"),
